@@ -23,11 +23,11 @@ def ref_merge(base: dict, child: dict) -> dict:
 
 
 def _leafdict(sel: int, v: int, depth: int):
-    """sel: 0 absent, 1 int, 2.. dict variants (one inner key 'a' recursively)."""
+    """sel: 0 absent, 1 int (v == 0 stands for a null value), 2.. dict variants (one inner key 'a' recursively)."""
     if sel == 0:
         return None, False
     if sel == 1:
-        return v, True
+        return (None if v == 0 else v), True
     if depth == 0:
         skip("depth")
     inner, present = _leafdict(sel - 2, v + 1, depth - 1)
@@ -57,7 +57,7 @@ def _node2(sel: int, va: int, vb: int):
     if sel == 0:
         return None, False
     if sel == 1:
-        return va, True
+        return (None if va == 0 else va), True
     d = {}
     if sel in (3, 5):
         d["a"] = va
@@ -88,15 +88,23 @@ def merge_two_keys(ba: int, bb: int, ca: int, cb: int, v1: int, v2: int, v3: int
 
 
 # --------------------------------------------------------------------------- Config.loads with includes
+SUB_FIRST = [False]   # declaration order of the nested schema vs the include fields (set per obligation)
+
+
 def _schema(startdir):
     schema = Schema()
+    if SUB_FIRST[0]:
+        schema.sub.y = IntField(default=3)
+        schema.sub.inc = IncludeField(startdir=startdir)
+        schema.sub.z = IntField(default=4)
     schema.inc = IncludeField(startdir=startdir)
     schema.inc2 = IncludeField(startdir=startdir)
     schema.x = IntField(default=1)
     schema.w = IntField(default=2)
-    schema.sub.inc = IncludeField(startdir=startdir)
-    schema.sub.y = IntField(default=3)
-    schema.sub.z = IntField(default=4)
+    if not SUB_FIRST[0]:
+        schema.sub.inc = IncludeField(startdir=startdir)
+        schema.sub.y = IntField(default=3)
+        schema.sub.z = IntField(default=4)
     return schema
 
 
@@ -120,6 +128,8 @@ def _loads(root_inc: int, chain: bool, nested_inc: int,
         sub["z"] = f_z
     if sub:
         f_tree["sub"] = sub
+        if SUB_FIRST[0] and f_z is not None and nested_inc < 0:
+            sub["inc"] = "n.mem"          # the nested include is named by what the root include contributes
     g_tree = {"w": g_w} if g_w is not None else {}
     n_tree = {}
     if n_y is not None:
@@ -157,7 +167,7 @@ def _loads(root_inc: int, chain: bool, nested_inc: int,
         ref = ref_merge(ref, f_tree)
     if chain:
         ref = ref_merge(ref, g_tree)
-    if not should_fail and ref.get("sub") and ref["sub"].get("inc") is not None:
+    if not should_fail and isinstance(ref.get("sub"), dict) and ref["sub"].get("inc") is not None:
         ref["sub"] = ref_merge(ref["sub"], n_tree)
     with fs.patched(), mem.registered():
         cfg = _schema("/cfg")()
@@ -184,13 +194,19 @@ def _make(root_inc: int):
                      "the reference-merged tree; missing/directory include path => the load fails "
                      "(root include path kind fixed per obligation: none/relative/absolute/missing/directory)")
     def ob(chain: bool, nested_inc: int, main_x: Optional[int], main_y: Optional[int],
-           f_x: Optional[int], f_y: Optional[int], n_y: Optional[int], v1: int, v2: int, v3: int) -> bool:
+           f_x: Optional[int], f_y: Optional[int], n_y: Optional[int], v1: int, v2: int, v3: int, sub_first: bool) -> bool:
         """
         pre: -1 <= nested_inc <= 3
         post: _
         """
-        return _loads(root_inc, chain, nested_inc, main_x, main_y, f_x, f_y,
-                      v1 if f_y is not None else None, v2, n_y, v3)
+        if sub_first and (chain or main_x is not None or f_x is not None):
+            skip("declaration order: explored for the nested-scope dimensions only")
+        SUB_FIRST[0] = bool(sub_first)
+        try:
+            return _loads(root_inc, chain, nested_inc, main_x, main_y, f_x, f_y,
+                          v1 if f_y is not None else None, v2, n_y, v3)
+        finally:
+            SUB_FIRST[0] = False
 
 
 for _r in (-1, 0, 1, 2, 3):
